@@ -25,6 +25,12 @@ def same(a, b):
     return (np.isnan(a) and np.isnan(b)) or a == b
 
 
+def _run_study(SF, how):
+    # unordered pool APIs may deliver in any order: use that freedom against the caller (harness-side wrapper)
+    with impl.adversarial_pool():
+        SF.run(how=how)
+
+
 def check(rep, tier):
     rng = random.Random(rep.seed)
     ok, msg = common.proof_stage(rep, "C17", ["theories/model/Tables.vo"])
@@ -92,7 +98,7 @@ def check(rep, tier):
                 with impl.quiet():
                     SF = sfall.Snowfall(Nrep=Nrep, pool_size=rng.choice([1, 2, None]), k=dict(cfg["k"]), N_vials=cfg["shape"], dt=cfg["dt"], seed_v=cfg["seed_v"],
                                         opcond=fr.gen_opcond.build(cfg["prog"], impl.opcond_mod()), configPath=impl.cfg_path(cfg["over"]), initIce=cfg["initIce"])
-                    SF.run(how=how)
+                    _run_study(SF, how)
                     fdf = SF.to_frame()
                     acc = {}
                     for what, fn in (("t_nucleation", SF.nucleationTimes), ("T_nucleation", SF.nucleationTemperatures), ("t_solidification", SF.solidificationTimes)):
